@@ -6,12 +6,17 @@ class C22(Spec):
     drv = "drv_c22"
     harness = "h_c22"
     lean_deps = ("C21", "C23")
-    required_theorems = ("C22.admit_sound", "C22.reject_no_change", "C22.admit_ok_iff_pushed")
+    required_theorems = ("C22.admit_sound_partial", "C22.reject_no_change", "C22.admit_ok_iff_pushed",
+                         "C22.admit_full_false", "C22.member_nonce_full_false")
+    partial = ("C22.admit_sound_partial",)
+    refuted = ("C22.admit_full_false", "C22.member_nonce_full_false")
     level_text = (
         "Lean theorems about a model of the admission path (checkTxs: fee minimum incl. tiered fee, per-member "
         "checkTx; checkSign; checkTxRemote: on-chain duplicates, executor check, evmTxNonceCheck; PushTx): "
-        "`admit_sound` - an admitted plain tx or group satisfies every clause of the property, for every member, and "
-        "the new pool is exactly push(record); `reject_no_change` - a rejected submission leaves the pool unchanged. "
+        "`admit_sound_partial` - an admitted plain tx or group satisfies every clause of the property, for every member "
+        "(six clauses under the hypothesis that the node does not forward the tx to the main chain; the nonce clause "
+        "for the head only - both restrictions refuted on witnesses that the harness replays on the real code, two "
+        "known findings), and the new pool is exactly push(record); `reject_no_change` - a rejected submission leaves the pool unchanged. "
         "Tied to the code by a differential run through the real EventTx pipeline: generated submissions with each "
         "clause violated in turn (singles and groups) against generated pool/chain states; reply and full pool "
         "state compared with the model, and the property predicate evaluated from the harness' own knowledge.")
@@ -21,7 +26,8 @@ class C22(Spec):
         "modelled (the harness builds well-linked groups with the right chain id); the pipeline's goroutine fan-out "
         "is exercised one submission at a time.")
     assumptions = (
-        "one submission in flight at a time (the pipeline's worker fan-out is not explored)",
+        "one submission in flight at a time (the pipeline's worker fan-out is not explored): checkTxs and PushTx see the same pool",
+        "IsForward2MainChainTx is an oracle bit per submission (harness: para-chain config, executor not user.p.verif.*); forward-by-action-name configuration is not exercised",
         "crypto drivers' verify behaves as the harness' knowledge of which signatures it corrupted",
         "fake blockchain / execs / rpc modules answer EventTxHashList / EventCheckTx / EventGetEvmNonce from harness-controlled tables",
     )
